@@ -973,6 +973,18 @@ class Evaluator:
                 self.loop(s, env)
             elif isinstance(s, (ast.With, ast.Try)):
                 self.block(getattr(s, "body", []), env)
+            elif isinstance(s, ast.While):
+                # not a counted loop (those are normalised to `for`): everything it writes is unknown
+                for n in ast.walk(s):
+                    b = None
+                    if isinstance(n, ast.Name) and isinstance(n.ctx, ast.Store):
+                        b = n.id
+                    elif isinstance(n, ast.Subscript) and isinstance(n.ctx, ast.Store) and isinstance(n.value, ast.Name):
+                        b = n.value.id
+                    elif isinstance(n, ast.Call) and isinstance(n.func, ast.Attribute) and n.func.attr in ("append", "insert", "extend", "pop") and isinstance(n.func.value, ast.Name):
+                        b = n.func.value.id
+                    if b is not None and isinstance(env.get(b), (Deg, ListV)):
+                        env[b] = Deg(Top(f"`{b}` is written in a while loop the analysis does not follow"))
         return False
 
     @staticmethod
